@@ -34,11 +34,12 @@ def main():
     ap.add_argument("--jobs", type=int, default=4)
     ap.add_argument("--only", default=None)
     ap.add_argument("--skip-clean", action="store_true")
+    ap.add_argument("--no-seeded", action="store_true")
     a = ap.parse_args()
     jobs = []
     pids = sorted({os.path.basename(f)[:3] for f in glob.glob(VERIF + "/selftest/mutants/[CX]*.diff")})
     if not a.skip_clean:
-        for pid in [f"C{k:02d}" for k in range(1, 21)]:
+        for pid in [f"C{k:02d}" for k in range(1, 21)] + [f"X{k:02d}" for k in range(1, 16)]:
             if a.only and pid != a.only:
                 continue
             jobs.append(("clean", pid, None, pid))
@@ -47,7 +48,7 @@ def main():
         if a.only and pid != a.only:
             continue
         jobs.append(("mutant", os.path.basename(f)[:-5], f, pid))
-    for d in sorted(glob.glob(VERIF + "/seeded/*/")):
+    for d in ([] if a.no_seeded else sorted(glob.glob(VERIF + "/seeded/*/"))):
         m = json.load(open(d + "meta.json"))
         pid = m["check"]["command"].split("./check ")[1].split()[0]
         if a.only and pid != a.only:
